@@ -138,13 +138,24 @@ def gen(seed, per_file, kinds="all"):
 
 
 def sh(cmd, cwd=None, timeout=1800, env=None):
+    """run a shell command in its own process group; on timeout the whole group is killed (a mutant may loop forever)"""
+    import signal
     e = dict(os.environ)
     e.update(env or {})
+    p = subprocess.Popen(cmd, shell=True, cwd=cwd, env=e, stdout=subprocess.PIPE, stderr=subprocess.STDOUT, text=True, start_new_session=True)
     try:
-        r = subprocess.run(cmd, shell=True, cwd=cwd, timeout=timeout, env=e, stdout=subprocess.PIPE, stderr=subprocess.STDOUT, text=True, start_new_session=True)
-        return r.returncode, r.stdout
-    except subprocess.TimeoutExpired as ex:
-        return 124, (ex.stdout or "") if isinstance(ex.stdout, str) else ""
+        out, _ = p.communicate(timeout=timeout)
+        return p.returncode, out
+    except subprocess.TimeoutExpired:
+        try:
+            os.killpg(p.pid, signal.SIGKILL)
+        except OSError:
+            pass
+        try:
+            out, _ = p.communicate(timeout=10)
+        except Exception:
+            out = ""
+        return 124, out or ""
 
 
 def cover_for(rel):
@@ -167,7 +178,7 @@ def run_one(m, slot):
     lines[m["line"] - 1] = ln[:m["col"]] + m["new"] + ln[m["col"] + len(m["old"]):]
     open(p, "w").write("\n".join(lines))
     env = dict(CARGO_TARGET_DIR=os.path.join(d, "target"), CARGO_NET_OFFLINE="true")
-    rc, out = sh("cargo test --workspace --no-fail-fast --offline 2>&1 | tail -n 30", cwd=repo, timeout=900, env=env)
+    rc, out = sh("cargo test --workspace --no-fail-fast --offline 2>&1 | tail -n 30", cwd=repo, timeout=600, env=env)
     res = dict(m)
     res["diff"] = "-%s\n+%s" % (ln.strip(), lines[m["line"] - 1].strip())
     if "error[" in out or "error:" in out and "could not compile" in out:
